@@ -125,6 +125,40 @@ fn alias_sweep(max_k: usize) -> Sweep {
     })
 }
 
+fn nested_sweep() -> Sweep {
+    let fam = Rc::new(sem::nested_family());
+    let f2 = fam.clone();
+    let f3 = fam.clone();
+    Sweep::new(
+        "nested-group family (fully annotated)",
+        fam.len() as u64,
+        move |idx| {
+            let text = &fam[idx as usize];
+            count!("evaluations");
+            // cross-examine the family with the reference checker
+            let ok = crate::bind::with_front(text, &[], 2, |f| match f {
+                crate::bind::Front::TypeErr { term, .. } | crate::bind::Front::Ok { term, .. } => {
+                    matches!(sem::reference_check(&crate::model::mterm::mirror(term), Some(&M::Int)), RefVerdict::WellTyped)
+                }
+                _ => false,
+            });
+            if !ok {
+                count!("generator_rejected_by_reference");
+                return;
+            }
+            count!("reference_accepts");
+            check_annotated(text, Some(&M::Int), "nested-group family");
+        },
+        move |idx| f2[idx as usize].clone(),
+    )
+    .with_post_abort(move |idx, kind| AbortVerdict::Violation {
+        sub: "abnormal-ending-on-well-typed-program".to_owned(),
+        input: f3[idx as usize].clone(),
+        expected: "accepted at type int".to_owned(),
+        actual: kind.to_owned(),
+    })
+}
+
 fn small_sweep(max_nodes: usize) -> Sweep {
     let space = Rc::new(RefCell::new(sem::small_term_space()));
     let total = space.borrow_mut().total_upto(max_nodes);
@@ -168,7 +202,7 @@ impl Prop for C05 {
         "C05"
     }
     fn sweeps(&self, tier: Tier) -> Vec<Sweep> {
-        vec![typed_sweep(tier), alias_sweep(tier.pick(2, 3)), small_sweep(tier.pick(6, 7))]
+        vec![typed_sweep(tier), alias_sweep(tier.pick(2, 3)), nested_sweep(), small_sweep(tier.pick(6, 7))]
     }
     fn evidence(&self, tier: Tier) -> EvidenceSpec {
         EvidenceSpec {
